@@ -1,11 +1,844 @@
-// Package c14: correspondence ops for C14 (stub, not yet built).
 package c14
 
 import (
+	"encoding/json"
+	"fmt"
+	"math/rand/v2"
+	"sort"
+	"strings"
+
+	corev1 "k8s.io/api/core/v1"
+	"k8s.io/apimachinery/pkg/api/resource"
+
+	v1 "sigs.k8s.io/karpenter/pkg/apis/v1"
+	"sigs.k8s.io/karpenter/pkg/controllers/nodeclaim/lifecycle"
+	"sigs.k8s.io/karpenter/pkg/scheduling"
+
 	"verifharness/internal/core"
 	"verifharness/internal/registry"
 )
 
 func init() { registry.Register("C14", Ops) }
 
-func Ops() []*core.Op { return nil }
+// ---------- taint universe ----------
+
+var (
+	tUnreg    = Taint{v1.UnregisteredTaintKey, string(corev1.TaintEffectNoExecute)}
+	tClaim    = Taint{"example.com/dedicated", "NoSchedule"}
+	tStartA   = Taint{"example.com/startup-a", "NoSchedule"}
+	tStartB   = Taint{"example.com/startup-b", "NoExecute"}
+	tDecoy    = Taint{"example.com/startup-a", "NoExecute"}          // same key as a startup taint, other effect: does not match
+	tNearEph  = Taint{"node.kubernetes.io/unreachable", "NoExecute"} // not in KnownEphemeralTaints (only :NoSchedule is)
+	tReadyCtl = Taint{"readiness.k8s.io/network", "NoSchedule"}      // known by key prefix
+	tOther    = Taint{"example.com/other", "NoSchedule"}
+)
+
+// ephemeral taints straight from the code's table (the Lean spec has its own, documented, list)
+func ephTaints() []Taint {
+	var out []Taint
+	for _, t := range scheduling.KnownEphemeralTaints {
+		if t.Key == v1.UnregisteredTaintKey {
+			continue
+		}
+		out = append(out, Taint{t.Key, string(t.Effect)})
+	}
+	return append(out, tReadyCtl)
+}
+
+func pick[T any](r *rand.Rand, xs []T) T { return xs[r.IntN(len(xs))] }
+
+// ---------- c14.lifecycle: random histories ----------
+
+var faultSites = []struct {
+	site    string
+	classes []string
+}{
+	{"nc.patch.lock", []string{"conflict", "notfound", "err"}},
+	{"nc.delete", []string{"notfound", "err"}},
+	{"node.list", []string{"err"}},
+	{"node.patch.lock", []string{"conflict", "notfound", "err"}},
+	{"node.patch", []string{"notfound", "err"}},
+	{"nc.patch", []string{"notfound", "err"}},
+	{"nc.status", []string{"notfound", "err"}},
+}
+
+var createOutcomes = []string{"ice", "ncnr", "gen", "cerr"}
+
+func genClaim(r *rand.Rand) ClaimIn {
+	c := ClaimIn{Startup: []Taint{}, Taints: []Taint{}}
+	switch r.IntN(5) {
+	case 0:
+	case 1:
+		c.Startup = []Taint{tStartA}
+	case 2:
+		c.Startup = []Taint{tStartB}
+	case 3:
+		c.Startup = []Taint{tStartA, tStartB}
+	case 4:
+		c.Startup = []Taint{tStartB, tStartA}
+	}
+	if r.IntN(2) == 0 {
+		c.Taints = []Taint{tClaim}
+	}
+	c.Res = r.IntN(3)
+	c.Pool = r.IntN(2) == 0
+	c.Fin = r.IntN(5) == 0
+	return c
+}
+
+func genNodeStep(r *rand.Rand, c ClaimIn) Step {
+	s := Step{K: "node", Taints: []Taint{}}
+	if r.IntN(10) < 8 {
+		s.Taints = append(s.Taints, tUnreg)
+	}
+	eph := ephTaints()
+	for i := 0; i < 2; i++ {
+		if r.IntN(10) < 4 {
+			s.Taints = appendUniq(s.Taints, pick(r, eph))
+		}
+	}
+	for _, t := range c.Startup {
+		if r.IntN(10) < 3 {
+			s.Taints = appendUniq(s.Taints, t)
+		}
+	}
+	for _, t := range []Taint{tDecoy, tNearEph, tOther, tClaim} {
+		if r.IntN(10) < 1 {
+			s.Taints = appendUniq(s.Taints, t)
+		}
+	}
+	r.Shuffle(len(s.Taints), func(i, j int) { s.Taints[i], s.Taints[j] = s.Taints[j], s.Taints[i] })
+	s.Ready = r.IntN(10) < 4
+	s.Res = r.IntN(10) < 4
+	s.Dns = r.IntN(10) < 1
+	s.Reg = r.IntN(10) < 1
+	return s
+}
+
+func appendUniq(ts []Taint, t Taint) []Taint {
+	for _, x := range ts {
+		if x == t {
+			return ts
+		}
+	}
+	return append(ts, t)
+}
+
+func genRec(r *rand.Rand, pFault float64) Step {
+	s := Step{K: "rec"}
+	if r.IntN(10) < 3 {
+		s.Lag = 1 + r.IntN(6)
+	}
+	if r.IntN(4) == 0 {
+		s.Create = pick(r, createOutcomes)
+	}
+	if r.Float64() < pFault {
+		s.F = map[string]string{}
+		n := 1
+		if r.IntN(5) == 0 {
+			n = 2
+		}
+		for i := 0; i < n; i++ {
+			fs := pick(r, faultSites)
+			s.F[fs.site] = pick(r, fs.classes)
+		}
+	}
+	return s
+}
+
+func genHistory(r *rand.Rand, t core.Tier) any {
+	if r.IntN(3) == 0 {
+		return genChaotic(r, t)
+	}
+	return genGuided(r, t)
+}
+
+// genGuided follows the life of a NodeClaim (launch, node appears, the node gets ready piece by piece) so that
+// Registered / Initialized are reached often, with faults, lagging copies and adverse events mixed in.
+func genGuided(r *rand.Rand, t core.Tier) any {
+	c := genClaim(r)
+	maxLen := 30
+	if t == core.Thorough {
+		maxLen = 60
+	}
+	n := 8 + r.IntN(maxLen-7)
+	pFault := []float64{0, 0.1, 0.25, 0.5}[r.IntN(4)]
+	pLag := []int{0, 0, 15, 40}[r.IntN(4)]
+	launched, node := false, false
+	var present []Taint // taints probably on the node
+	var steps []Step
+	now := 0
+	userDeleteAt := -1
+	if r.IntN(12) == 0 {
+		userDeleteAt = n/2 + r.IntN(n/2+1)
+	}
+	for len(steps) < n {
+		if len(steps) == userDeleteAt {
+			steps = append(steps, Step{K: "del"})
+			continue
+		}
+		if r.IntN(2) == 0 {
+			s := Step{K: "rec"}
+			if r.IntN(100) < pLag {
+				s.Lag = 1 + r.IntN(4)
+			}
+			if !launched && r.IntN(4) == 0 {
+				s.Create = pick(r, createOutcomes)
+			}
+			if r.Float64() < pFault {
+				fs := pick(r, faultSites)
+				s.F = map[string]string{fs.site: pick(r, fs.classes)}
+				if r.IntN(6) == 0 {
+					fs2 := pick(r, faultSites)
+					s.F[fs2.site] = pick(r, fs2.classes)
+				}
+			}
+			if s.Create == "" && s.F["nc.patch.lock"] == "" {
+				launched = true
+			}
+			steps = append(steps, s)
+			now++
+			continue
+		}
+		x := r.IntN(100)
+		switch {
+		case launched && !node:
+			if x < 80 {
+				ns := genNodeStep(r, c)
+				present = append(append(append([]Taint{}, ns.Taints...), c.Startup...), c.Taints...)
+				steps = append(steps, ns)
+				node = true
+			} else {
+				secs := 1 + r.IntN(20)
+				now += secs
+				steps = append(steps, Step{K: "adv", Secs: secs})
+			}
+		case node:
+			switch {
+			case x < 22:
+				steps = append(steps, Step{K: "ready"})
+			case x < 60:
+				if len(present) > 0 {
+					i := r.IntN(len(present))
+					tt := present[i]
+					present = append(present[:i:i], present[i+1:]...)
+					steps = append(steps, Step{K: "rmt", T: &tt})
+				} else {
+					steps = append(steps, Step{K: "res"})
+				}
+			case x < 74:
+				steps = append(steps, Step{K: "res"})
+			case x < 80:
+				tt := pick(r, append([]Taint{tUnreg, tDecoy, tNearEph, tOther, tStartA, tStartB}, ephTaints()...))
+				present = appendUniq(present, tt)
+				steps = append(steps, Step{K: "addt", T: &tt})
+			case x < 83:
+				steps = append(steps, Step{K: "unready"})
+			case x < 86:
+				steps = append(steps, Step{K: "unres"})
+			case x < 89:
+				steps = append(steps, Step{K: "gone"})
+				node = false
+			case x < 91:
+				steps = append(steps, genNodeStep(r, c)) // a second node with the same provider id
+			default:
+				secs := 1 + r.IntN(20)
+				now += secs
+				steps = append(steps, Step{K: "adv", Secs: secs})
+			}
+		default:
+			secs := 1 + r.IntN(30)
+			if r.IntN(4) == 0 {
+				target := pick(r, []int{300, 900}) + r.IntN(5) - 2
+				if target > now {
+					secs = target - now
+				}
+			}
+			now += secs
+			steps = append(steps, Step{K: "adv", Secs: secs})
+		}
+	}
+	// let the dust settle: two clean reconciles on the current copy
+	steps = append(steps, Step{K: "rec"}, Step{K: "rec"})
+	return In{Claim: c, Steps: steps}
+}
+
+func genChaotic(r *rand.Rand, t core.Tier) any {
+	c := genClaim(r)
+	maxLen := 28
+	if t == core.Thorough {
+		maxLen = 60
+	}
+	n := 6 + r.IntN(maxLen-5)
+	pFault := []float64{0, 0.15, 0.35, 0.6}[r.IntN(4)]
+	taintPool := append([]Taint{tUnreg, tClaim, tStartA, tStartB, tDecoy, tNearEph, tOther}, ephTaints()...)
+	var steps []Step
+	now := 0
+	nodes := 0
+	for len(steps) < n {
+		x := r.IntN(100)
+		switch {
+		case x < 45:
+			steps = append(steps, genRec(r, pFault))
+			now++ // roughly: a reconcile that patches sleeps one second
+		case x < 55:
+			if nodes == 0 || r.IntN(5) == 0 {
+				steps = append(steps, genNodeStep(r, c))
+				nodes++
+			} else {
+				steps = append(steps, Step{K: "ready"})
+			}
+		case x < 62:
+			steps = append(steps, Step{K: pick(r, []string{"ready", "ready", "unready"})})
+		case x < 68:
+			steps = append(steps, Step{K: pick(r, []string{"res", "res", "unres"})})
+		case x < 82:
+			tt := pick(r, taintPool)
+			k := "rmt"
+			if r.IntN(4) == 0 {
+				k = "addt"
+			}
+			steps = append(steps, Step{K: k, T: &tt})
+		case x < 84:
+			steps = append(steps, Step{K: "gone"})
+			nodes = 0
+		case x < 96:
+			// clock: small steps, or a jump to just before / at / just after one of the two liveness edges
+			secs := 1 + r.IntN(30)
+			if r.IntN(3) == 0 {
+				edge := pick(r, []int{300, 900})
+				target := edge + r.IntN(5) - 2
+				if target > now {
+					secs = target - now
+				}
+			}
+			now += secs
+			steps = append(steps, Step{K: "adv", Secs: secs})
+		case x < 97:
+			if len(steps) > n/2 {
+				steps = append(steps, Step{K: "del"})
+			}
+		default:
+			steps = append(steps, genRec(r, 0))
+		}
+	}
+	return In{Claim: c, Steps: steps}
+}
+
+func impl(raw json.RawMessage) (any, error) {
+	var in In
+	if err := json.Unmarshal(raw, &in); err != nil {
+		return nil, err
+	}
+	return run(in)
+}
+
+func decodeOut(v any) *Out {
+	b, err := json.Marshal(v)
+	if err != nil {
+		return nil
+	}
+	var o Out
+	if json.Unmarshal(b, &o) != nil {
+		return nil
+	}
+	return &o
+}
+
+func reachedCreate(_ json.RawMessage, implV any) bool {
+	o := decodeOut(implV)
+	if o == nil {
+		return false
+	}
+	for _, s := range o.Steps {
+		if len(s.Creates) > 0 {
+			return true
+		}
+	}
+	return false
+}
+
+func histLabels(raw json.RawMessage, implV any) []string {
+	var in In
+	json.Unmarshal(raw, &in)
+	set := map[string]bool{}
+	set[fmt.Sprintf("len<=%d", ((len(in.Steps)/10)+1)*10)] = true
+	set[fmt.Sprintf("startup=%d", len(in.Claim.Startup))] = true
+	set[fmt.Sprintf("res=%d", in.Claim.Res)] = true
+	for _, s := range in.Steps {
+		set["step:"+s.K] = true
+		if s.Lag > 0 {
+			set["lagged-view"] = true
+		}
+		for site, cls := range s.F {
+			set["fault:"+site+":"+cls] = true
+		}
+	}
+	if o := decodeOut(implV); o != nil {
+		okCreates := 0
+		for _, s := range o.Steps {
+			for _, c := range s.Calls {
+				set["call:"+c] = true
+			}
+			for _, c := range s.Creates {
+				if c.Ok {
+					okCreates++
+				}
+			}
+			if s.Rec && s.View.Del {
+				set["deletion-path"] = true
+			}
+			if strings.HasPrefix(s.Result, "after:") {
+				set["result:after"] = true
+			} else if s.Result != "" {
+				set["result:"+s.Result] = true
+			}
+			for _, x := range []struct{ n, v, r string }{{"L", s.Claim.L, s.Claim.Lr}, {"R", s.Claim.R, s.Claim.Rr}, {"I", s.Claim.I, s.Claim.Ir}} {
+				if x.v != "" {
+					rr := x.r
+					if i := strings.Index(rr, "|"); i >= 0 {
+						rr = rr[:i]
+					}
+					set[x.n+"="+x.v+"/"+rr] = true
+				}
+			}
+			if len(s.Nodes) > 1 {
+				set["duplicate-node"] = true
+			}
+		}
+		set[fmt.Sprintf("instances=%d", okCreates)] = true
+	}
+	out := make([]string, 0, len(set))
+	for k := range set {
+		out = append(out, k)
+	}
+	sort.Strings(out)
+	return out
+}
+
+// signature: which clause family a failing history belongs to (used only to match known findings)
+func histSignature(_ json.RawMessage, implV any) string {
+	o := decodeOut(implV)
+	if o == nil {
+		return "no-output"
+	}
+	ok := 0
+	for _, s := range o.Steps {
+		for _, c := range s.Creates {
+			if c.Ok {
+				ok++
+			}
+			if !c.Fin && c.Exists {
+				return "create-without-finalizer"
+			}
+		}
+	}
+	if ok > 1 {
+		return "double-create"
+	}
+	return "lifecycle"
+}
+
+func histShrink(raw json.RawMessage) []any {
+	var in In
+	json.Unmarshal(raw, &in)
+	var out []any
+	for _, c := range core.ShrinkList(in.Steps) {
+		out = append(out, In{Claim: in.Claim, Steps: c})
+	}
+	// drop faults / lags / create outcomes one step at a time
+	for i, s := range in.Steps {
+		if s.K != "rec" {
+			continue
+		}
+		if len(s.F) > 0 || s.Lag > 0 || s.Create != "" {
+			cp := append([]Step{}, in.Steps...)
+			if len(s.F) > 0 {
+				cp[i].F = nil
+			} else if s.Lag > 0 {
+				cp[i].Lag = 0
+			} else {
+				cp[i].Create = ""
+			}
+			out = append(out, In{Claim: in.Claim, Steps: cp})
+		}
+	}
+	if len(in.Claim.Startup) > 0 || len(in.Claim.Taints) > 0 || in.Claim.Pool || in.Claim.Res != 0 {
+		c := in.Claim
+		switch {
+		case c.Pool:
+			c.Pool = false
+		case len(c.Taints) > 0:
+			c.Taints = []Taint{}
+		case len(c.Startup) > 0:
+			c.Startup = c.Startup[:len(c.Startup)-1]
+		default:
+			c.Res = 0
+		}
+		out = append(out, In{Claim: c, Steps: in.Steps})
+	}
+	return out
+}
+
+// ---------- c14.faults: every single-fault position x node scripts (exhaustive) ----------
+
+type faultKind struct {
+	site, class string // site "create": class is the provider outcome
+}
+
+func allFaultKinds() []faultKind {
+	var out []faultKind
+	for _, fs := range faultSites {
+		for _, c := range fs.classes {
+			out = append(out, faultKind{fs.site, c})
+		}
+	}
+	for _, c := range createOutcomes {
+		out = append(out, faultKind{"create", c})
+	}
+	return out
+}
+
+// node scripts: the node appears (with the unregistered taint, a kubelet not-ready taint, not Ready, resources not
+// yet reported, startup taints synced by registration), then the four things that must happen before Initialized
+// in some order, a reconcile after every event.
+func permutations(xs []string) [][]string {
+	if len(xs) <= 1 {
+		return [][]string{append([]string{}, xs...)}
+	}
+	var out [][]string
+	for i := range xs {
+		rest := append(append([]string{}, xs[:i]...), xs[i+1:]...)
+		for _, p := range permutations(rest) {
+			out = append(out, append([]string{xs[i]}, p...))
+		}
+	}
+	return out
+}
+
+func scriptSteps(order []string, nodeBeforeLaunch bool) []Step {
+	notReady := Taint{corev1.TaintNodeNotReady, string(corev1.TaintEffectNoSchedule)}
+	node := Step{K: "node", Taints: []Taint{tUnreg, notReady}}
+	var steps []Step
+	if nodeBeforeLaunch {
+		steps = append(steps, node) // no instance yet: nothing appears
+	}
+	steps = append(steps, Step{K: "rec"}, Step{K: "rec"}, node, Step{K: "rec"})
+	for _, ev := range order {
+		switch ev {
+		case "ready":
+			steps = append(steps, Step{K: "ready"})
+		case "startup":
+			steps = append(steps, Step{K: "rmt", T: &tStartA})
+		case "eph":
+			steps = append(steps, Step{K: "rmt", T: &notReady})
+		case "res":
+			steps = append(steps, Step{K: "res"})
+		}
+		steps = append(steps, Step{K: "rec"})
+	}
+	return append(steps, Step{K: "rec"})
+}
+
+func enumFaults(t core.Tier) []any {
+	claim := ClaimIn{Startup: []Taint{tStartA}, Taints: []Taint{tClaim}, Res: 1, Pool: true}
+	orders := permutations([]string{"ready", "startup", "eph", "res"})
+	if t == core.Quick {
+		// six scripts: each event first / last at least once
+		orders = [][]string{orders[0], orders[5], orders[9], orders[14], orders[18], orders[23]}
+	}
+	kinds := allFaultKinds()
+	var out []any
+	bases := [][]Step{}
+	for oi, order := range orders {
+		bases = append(bases, scriptSteps(order, oi%2 == 1))
+	}
+	// one more script: the node shows up complete (no unregistered / kubelet taint, Ready, resources reported), so
+	// that registration and initialization fall into the same reconcile
+	bases = append(bases, []Step{{K: "rec"}, {K: "node", Taints: []Taint{}, Ready: true, Res: true}, {K: "rec"},
+		{K: "rmt", T: &tStartA}, {K: "rec"}, {K: "rec"}})
+	for _, base := range bases {
+		out = append(out, In{Claim: claim, Steps: base}) // fault free
+		for p, s := range base {
+			if s.K != "rec" {
+				continue
+			}
+			for _, k := range kinds {
+				for _, retryLag := range []int{0, 3} {
+					if retryLag > 0 && !(k.site == "nc.status" || k.site == "nc.patch" || k.site == "create") {
+						continue
+					}
+					steps := make([]Step, 0, len(base)+2)
+					steps = append(steps, base[:p]...)
+					f := Step{K: "rec"}
+					if k.site == "create" {
+						f.Create = k.class
+					} else {
+						f.F = map[string]string{k.site: k.class}
+					}
+					if k.site == "nc.delete" {
+						f.Create = "ice" // a delete is only reached through a capacity error (or a liveness timeout)
+					}
+					// the faulted reconcile, then the retry controller-runtime would make (possibly on a lagging copy)
+					steps = append(steps, f, Step{K: "rec", Lag: retryLag}, Step{K: "rec"})
+					steps = append(steps, base[p+1:]...)
+					out = append(out, In{Claim: claim, Steps: steps})
+				}
+			}
+		}
+	}
+	if t == core.Thorough {
+		// fault pairs on the first two reconciles (launch) and on the registration reconcile and its retry
+		base := scriptSteps(orders[0], false)
+		for _, k1 := range kinds {
+			for _, k2 := range kinds {
+				for _, at := range []int{0, 3} {
+					steps := append([]Step{}, base[:at]...)
+					for _, k := range []faultKind{k1, k2} {
+						f := Step{K: "rec"}
+						if k.site == "create" {
+							f.Create = k.class
+						} else {
+							f.F = map[string]string{k.site: k.class}
+						}
+						steps = append(steps, f)
+					}
+					steps = append(steps, Step{K: "rec"})
+					steps = append(steps, base[at:]...)
+					out = append(out, In{Claim: claim, Steps: steps})
+				}
+			}
+		}
+	}
+	return out
+}
+
+// ---------- c14.init: the exported initialization predicates ----------
+
+type InitIn struct {
+	Startup []Taint  `json:"startup"`
+	Node    []Taint  `json:"node"`
+	Reqs    [][2]int `json:"reqs"`  // requested extended resources: [resource index, quantity]
+	Alloc   [][2]int `json:"alloc"` // node allocatable: [resource index, quantity]
+}
+
+type InitOut struct {
+	Startup   *Taint `json:"startup"`   // first startup taint still on the node (nil: all removed)
+	Ephemeral *Taint `json:"ephemeral"` // first known ephemeral taint on the node
+	Resources bool   `json:"resources"` // every requested extended resource is reported
+}
+
+var initUniverse = []Taint{tStartA, tStartB, tDecoy, tNearEph, tReadyCtl, tOther,
+	{corev1.TaintNodeNotReady, "NoSchedule"}, {corev1.TaintNodeNotReady, "NoExecute"}, {corev1.TaintNodeUnreachable, "NoSchedule"},
+	{"node.cloudprovider.kubernetes.io/uninitialized", "NoSchedule"}, tUnreg, {"readiness.k8s.io", "NoSchedule"}}
+
+func resNameOf(i int) corev1.ResourceName {
+	return corev1.ResourceName(fmt.Sprintf("example.com/dev-%d", i))
+}
+
+func implInit(raw json.RawMessage) (any, error) {
+	var in InitIn
+	if err := json.Unmarshal(raw, &in); err != nil {
+		return nil, err
+	}
+	nc := &v1.NodeClaim{}
+	nc.Spec.StartupTaints = toTaints(in.Startup)
+	if len(in.Reqs) > 0 {
+		nc.Spec.Resources.Requests = corev1.ResourceList{}
+		for _, q := range in.Reqs {
+			nc.Spec.Resources.Requests[resNameOf(q[0])] = *resource.NewQuantity(int64(q[1]), resource.DecimalSI)
+		}
+	}
+	n := &corev1.Node{}
+	n.Spec.Taints = toTaints(in.Node)
+	// the cloud-provider taint carries a value in the wild; MatchTaint must ignore it
+	for i := range n.Spec.Taints {
+		if n.Spec.Taints[i].Key == "node.cloudprovider.kubernetes.io/uninitialized" {
+			n.Spec.Taints[i].Value = "true"
+		}
+	}
+	if len(in.Alloc) > 0 {
+		n.Status.Allocatable = corev1.ResourceList{}
+		for _, q := range in.Alloc {
+			n.Status.Allocatable[resNameOf(q[0])] = *resource.NewQuantity(int64(q[1]), resource.DecimalSI)
+		}
+	}
+	out := InitOut{}
+	if t, ok := lifecycle.StartupTaintsRemoved(n, nc); !ok {
+		out.Startup = &Taint{t.Key, string(t.Effect)}
+	}
+	if t, ok := lifecycle.KnownEphemeralTaintsRemoved(n); !ok {
+		out.Ephemeral = &Taint{t.Key, string(t.Effect)}
+	}
+	_, out.Resources = lifecycle.RequestedResourcesRegistered(n, nc)
+	return out, nil
+}
+
+func genInit(r *rand.Rand, _ core.Tier) any {
+	in := InitIn{Startup: []Taint{}, Node: []Taint{}, Reqs: [][2]int{}, Alloc: [][2]int{}}
+	for i, n := 0, r.IntN(4); i < n; i++ {
+		in.Startup = appendUniq(in.Startup, pick(r, initUniverse[:6]))
+	}
+	for i, n := 0, r.IntN(6); i < n; i++ {
+		in.Node = appendUniq(in.Node, pick(r, initUniverse))
+	}
+	for i := 0; i < 3; i++ {
+		if r.IntN(2) == 0 {
+			in.Reqs = append(in.Reqs, [2]int{i, r.IntN(3)})
+		}
+		if r.IntN(2) == 0 {
+			in.Alloc = append(in.Alloc, [2]int{i, r.IntN(2) * (1 + r.IntN(3))})
+		}
+	}
+	return in
+}
+
+func enumInit(_ core.Tier) []any {
+	var out []any
+	// every ordered startup list of length <= 2 over 3 taints x every node taint *pair order* over a 7-taint universe
+	st := []Taint{tStartA, tStartB, tDecoy}
+	startups := [][]Taint{{}}
+	for _, a := range st {
+		startups = append(startups, []Taint{a})
+		for _, b := range st {
+			if a != b {
+				startups = append(startups, []Taint{a, b})
+			}
+		}
+	}
+	uni := []Taint{tStartA, tStartB, tDecoy, tNearEph, tReadyCtl, {corev1.TaintNodeNotReady, "NoExecute"}, tUnreg}
+	for _, s := range startups {
+		for mask := 0; mask < 1<<len(uni); mask++ {
+			var nt []Taint
+			for i, t := range uni {
+				if mask&(1<<i) != 0 {
+					nt = append(nt, t)
+				}
+			}
+			if nt == nil {
+				nt = []Taint{}
+			}
+			out = append(out, InitIn{Startup: s, Node: nt, Reqs: [][2]int{}, Alloc: [][2]int{}})
+			if len(nt) >= 2 { // reversed node order: which taint is reported first
+				rev := make([]Taint, len(nt))
+				for i := range nt {
+					rev[len(nt)-1-i] = nt[i]
+				}
+				out = append(out, InitIn{Startup: s, Node: rev, Reqs: [][2]int{}, Alloc: [][2]int{}})
+			}
+		}
+	}
+	// resources: one or two requested resources x quantities {0,1} x allocatable {absent, 0, 1}
+	for q0 := -1; q0 <= 1; q0++ {
+		for q1 := -1; q1 <= 1; q1++ {
+			for a0 := -1; a0 <= 1; a0++ {
+				for a1 := -1; a1 <= 1; a1++ {
+					in := InitIn{Startup: []Taint{}, Node: []Taint{}, Reqs: [][2]int{}, Alloc: [][2]int{}}
+					if q0 >= 0 {
+						in.Reqs = append(in.Reqs, [2]int{0, q0})
+					}
+					if q1 >= 0 {
+						in.Reqs = append(in.Reqs, [2]int{1, q1})
+					}
+					if a0 >= 0 {
+						in.Alloc = append(in.Alloc, [2]int{0, a0})
+					}
+					if a1 >= 0 {
+						in.Alloc = append(in.Alloc, [2]int{1, a1})
+					}
+					out = append(out, in)
+				}
+			}
+		}
+	}
+	return out
+}
+
+func Ops() []*core.Op {
+	return []*core.Op{
+		{
+			Name: "c14.lifecycle",
+			Doc:  "the real lifecycle.Controller.Reconcile on the fake client + fake cloud provider, driven by random histories: reconciles (fresh or lagging copy, injected faults on every API write / node list / provider Create) interleaved with node events, clock steps to the liveness edges and user deletes; one controller (launch cache kept) per history",
+			N: func(t core.Tier) int {
+				if t == core.Thorough {
+					return 20000
+				}
+				return 2000
+			},
+			Gen:        genHistory,
+			Impl:       impl,
+			Rule:       "non-trivial = provider Create is reached at least once; distinct = distinct (claim, step list)",
+			Nontrivial: reachedCreate,
+			Labels:     histLabels,
+			Signature:  histSignature,
+			Shrink:     histShrink,
+		},
+		{
+			Name:           "c14.faults",
+			Doc:            "the same controller on scripted histories: node appears, then Ready / startup taint removed / kubelet taint removed / extended resource reported in every order (6 orders quick, all 24 thorough), a reconcile after every event; for every reconcile position and every (call site, error class) one injected fault followed by the retry (on the current or a lagging copy); thorough adds all fault pairs on launch and registration",
+			N:              func(core.Tier) int { return 0 },
+			Enum:           enumFaults,
+			Impl:           impl,
+			Rule:           "non-trivial = provider Create is reached",
+			ExhaustiveNote: "every single-fault position x {7 call sites x their error classes, 4 provider Create outcomes} x node scripts",
+			Nontrivial:     reachedCreate,
+			Labels:         histLabels,
+			Signature:      histSignature,
+			Shrink:         histShrink,
+		},
+		{
+			Name: "c14.init",
+			Doc:  "lifecycle.StartupTaintsRemoved / KnownEphemeralTaintsRemoved / RequestedResourcesRegistered on generated (NodeClaim, Node) pairs: which taint is reported, whether every requested extended resource is registered",
+			N: func(t core.Tier) int {
+				if t == core.Thorough {
+					return 20000
+				}
+				return 2000
+			},
+			Gen:            genInit,
+			Enum:           enumInit,
+			Impl:           implInit,
+			Rule:           "non-trivial = the node has at least one taint or a resource is requested",
+			ExhaustiveNote: "ordered startup lists (<=2 of 3) x all subsets of a 7-taint universe in both orders; 2 resources x request {absent,0,1} x allocatable {absent,0,1}",
+			Nontrivial: func(raw json.RawMessage, _ any) bool {
+				var in InitIn
+				json.Unmarshal(raw, &in)
+				return len(in.Node) > 0 || len(in.Reqs) > 0
+			},
+			Labels: func(raw json.RawMessage, implV any) []string {
+				var in InitIn
+				json.Unmarshal(raw, &in)
+				l := []string{fmt.Sprintf("startup=%d", len(in.Startup)), fmt.Sprintf("node-taints=%d", len(in.Node)), fmt.Sprintf("reqs=%d", len(in.Reqs))}
+				b, _ := json.Marshal(implV)
+				var o InitOut
+				json.Unmarshal(b, &o)
+				if o.Startup != nil {
+					l = append(l, "startup-taint-present")
+				}
+				if o.Ephemeral != nil {
+					l = append(l, "ephemeral-taint-present")
+				}
+				if !o.Resources {
+					l = append(l, "resource-missing")
+				}
+				return l
+			},
+			Signature: func(json.RawMessage, any) string { return "init" },
+			Shrink: func(raw json.RawMessage) []any {
+				var in InitIn
+				json.Unmarshal(raw, &in)
+				var out []any
+				for _, c := range core.ShrinkList(in.Node) {
+					out = append(out, InitIn{Startup: in.Startup, Node: c, Reqs: in.Reqs, Alloc: in.Alloc})
+				}
+				for _, c := range core.ShrinkList(in.Startup) {
+					out = append(out, InitIn{Startup: c, Node: in.Node, Reqs: in.Reqs, Alloc: in.Alloc})
+				}
+				for _, c := range core.ShrinkList(in.Reqs) {
+					out = append(out, InitIn{Startup: in.Startup, Node: in.Node, Reqs: c, Alloc: in.Alloc})
+				}
+				return out
+			},
+		},
+	}
+}
